@@ -494,6 +494,14 @@ func (x *Exec) applyContract(st *State, ins ssa.Instruction, t callTarget, c *ss
 			x.havocLoc(st, sc, loc)
 		}
 	}
+	// the callee may allocate: objects it returns as "fresh" lie at or above the old break
+	savedCallBrk := st.callBrk
+	st.callBrk = st.brk
+	nb := st.freshName("brk")
+	st.declare(nb, "Int")
+	st.assume(fmt.Sprintf("(>= %s %s)", nb, st.brk))
+	st.brk = nb
+	defer func() { st.callBrk = savedCallBrk }()
 	// results
 	sig := c.Signature()
 	res := st.fresh(sig.Results(), "ret:"+shortName(t.name))
